@@ -6,5 +6,6 @@ CONSTANTS
   BuiltinClashCrashes = FALSE
   LateBuiltinShadowed = FALSE
   AddRawKey = TRUE
+  AddMerged = FALSE
 INVARIANT NoDuplicateSurvives
 INVARIANT Terminates
